@@ -1,0 +1,9 @@
+//go:build !verif
+
+package concurrent
+
+// Without the `verif` build tag the schedule hooks of Foreach are empty and inlined away.
+
+func verifPermute[E any](collection []E) []E { return collection }
+
+func verifYield() {}
